@@ -20,6 +20,9 @@ pub fn gen_text(rng: &mut Rng, allow_taint: bool, malformed: bool) -> (String, b
             // what follows a string / escaped identifier decides the class
             last_strlike = false;
             if allow_taint && rng.chance(1, 2) { s.push_str(rng.pick_str(&[" ", "  ", "\n", " /* t */", "\t// t\n"])); tainted = true; continue; }
+            else if !allow_taint && rng.chance(1, 3) {
+                // a white-space run that begins with a line end is one Newline node: not emitted twice, so still the clean stream
+                s.push_str(rng.pick_str(&["\n", "\r\n", "\n  ", "\n\t\n", "\r\n \x0c"])); s.push_str(rng.pick_str(&[";", "x", "(", "42"])); continue; }
             else { s.push_str(rng.pick_str(&[";", ",", ")", "="])); continue; }
         }
         match r {
@@ -62,20 +65,35 @@ pub fn check_identity(text: &str) -> Result<bool, String> {
 }
 
 /// independent scanner: (has a backtick outside comments / strings / escaped identifiers,
-///                       has a top-level string literal or escaped identifier directly followed by trivia)
-pub fn scan_class(text: &str) -> (bool, bool) {
-    let b: Vec<char> = text.chars().collect(); let mut i = 0; let mut directive = false; let mut tainted = false;
-    let is_triv = |j: usize| j < b.len() && (b[j] == ' ' || b[j] == '\t' || b[j] == '\r' || b[j] == '\n' || b[j] == '\x0c' || b[j] == '`' || (b[j] == '/' && j + 1 < b.len() && (b[j + 1] == '/' || b[j + 1] == '*')));
+///                       has a top-level string literal or escaped identifier whose trailing trivia is emitted twice — known finding D4)
+/// What follows the string decides: a white-space run that begins with a line end is ONE node of kind Newline, which the event loop never
+/// emits on its own, so `"s"<newline><blanks>` followed by a token is NOT in the class; a run that begins with a blank / tab / form feed
+/// (a Space node), a comment or a directive — directly after the string or after such a Newline run — is.
+pub fn scan_class(text: &str) -> (bool, bool) { let (d, t, _) = scan3(text); (d, t) }
+
+/// as `scan_class`, plus: some top-level string literal / escaped identifier is followed by ANY trivia (the shape excluded by the
+/// hypothesis `PlainSD` of the Lean theorem C06_identity, which is wider than the defect class)
+pub fn scan3(text: &str) -> (bool, bool, bool) {
+    let b: Vec<char> = text.chars().collect(); let mut i = 0; let mut directive = false; let mut tainted = false; let mut any = false;
+    let is_ws = |c: char| c == ' ' || c == '\t' || c == '\r' || c == '\n' || c == '\x0c';
+    let starts_cd = |j: usize| j < b.len() && (b[j] == '`' || (b[j] == '/' && j + 1 < b.len() && (b[j + 1] == '/' || b[j + 1] == '*')));
+    let dup = |j: usize| -> (bool, bool) {
+        // (defect class, any trivia)
+        if j >= b.len() { return (false, false); }
+        if b[j] == ' ' || b[j] == '\t' || b[j] == '\x0c' || starts_cd(j) { return (true, true); }
+        if b[j] == '\r' || b[j] == '\n' { let mut k = j; while k < b.len() && is_ws(b[k]) { k += 1; } return (starts_cd(k), true); }
+        (false, false)
+    };
     while i < b.len() {
         let c = b[i];
         if c == '/' && i + 1 < b.len() && b[i + 1] == '/' { while i < b.len() && b[i] != '\n' { i += 1; } }
         else if c == '/' && i + 1 < b.len() && b[i + 1] == '*' { i += 2; loop { if i + 1 >= b.len() { i = b.len(); break; } if b[i] == '*' && b[i + 1] == '/' { i += 2; break; } i += 1; } }
-        else if c == '"' { i += 1; loop { if i >= b.len() { break; } if b[i] == '\\' { i += 2; continue; } if b[i] == '"' { i += 1; break; } i += 1; } if is_triv(i) { tainted = true; } }
-        else if c == '\\' { i += 1; while i < b.len() && !(b[i] == ' ' || b[i] == '\t' || b[i] == '\r' || b[i] == '\n' || b[i] == '\x0c') { i += 1; } if is_triv(i) { tainted = true; } }
+        else if c == '"' { i += 1; loop { if i >= b.len() { break; } if b[i] == '\\' { i += 2; continue; } if b[i] == '"' { i += 1; break; } i += 1; } let (t, a) = dup(i); tainted |= t; any |= a; }
+        else if c == '\\' { i += 1; while i < b.len() && !is_ws(b[i]) { i += 1; } let (t, a) = dup(i); tainted |= t; any |= a; }
         else if c == '`' { directive = true; i += 1; }
         else { i += 1; }
     }
-    (directive, tainted)
+    (directive, tainted, any)
 }
 
 /// independent scanner: does the (directive-free) text contain an unterminated string / block comment / lone backslash?
@@ -102,7 +120,7 @@ pub fn main(args: &[String]) {
     for i in 0..n {
         let stream = i % 4;
         let (text, _) = gen_text(&mut rng, stream == 1, stream == 3);
-        let (has_dir, tainted) = scan_class(&text);
+        let (has_dir, tainted, any_trivia) = scan3(&text);
         if has_dir { rep.count("skipped-has-directive"); continue; }
         // pieces can glue into an unterminated construct ("/" + "/* c */" is a line comment that hides the closing "*/"):
         // whatever the independent scanner finds broken is judged as the malformed stream
@@ -124,7 +142,7 @@ pub fn main(args: &[String]) {
             Err(e) => { rep.case(text.as_bytes(), true); rep.violation(&format!("panic: {}", util::panic_msg(e)), &text, ""); }
             Ok(Ok(nt)) => { rep.case(text.as_bytes(), nt); if nt && text.len() < 60 { rep.sample(format!("{:?}", text)); }
                 // hypothesis of the Lean theorem C06_identity: the model must find the parse tree of this text to be of the plain shape
-                if !tainted { plain_cases.push(format!("plain {}", util::hex(text.as_bytes()))); } }
+                if !any_trivia { plain_cases.push(format!("plain {}", util::hex(text.as_bytes()))); } }
             Ok(Err(m)) => {
                 rep.case(text.as_bytes(), true);
                 if tainted { rep.known("strlit-trailing-trivia", &m, &text, ""); }
